@@ -7,6 +7,8 @@ import extract as E
 FLP = 'src/Factored/MDP/Algorithms/Utils/FactoredLP.cpp'
 MLP = 'src/Factored/MDP/Algorithms/LinearProgramming.cpp'
 GVE = 'include/AIToolbox/Factored/Utils/GenericVariableElimination.hpp'
+LPW = 'src/Utils/LP/LpSolveWrapper.cpp'
+LPLIB = '/usr/include/lpsolve/lp_lib.h'
 
 
 def _body(src, header_re, what):
@@ -42,6 +44,52 @@ def _for_body(body, what):
         raise E.ExtractError(what + ': unbalanced loop')
     j = rest.index(';')
     return rest[:j + 1], rest[j + 1:]
+
+
+def _lp_code(tok, what):
+    """numeric value of an lp_solve result code written as a literal or as a macro of lp_lib.h"""
+    tok = tok.strip()
+    if re.fullmatch(r'-?\d+', tok):
+        return int(tok)
+    hdr = open(LPLIB).read()
+    m = re.search(r'^#define\s+' + re.escape(tok) + r'\s+(-?\d+)\s*$', hdr, re.M)
+    if not m:
+        raise E.ExtractError('%s: unknown lp_solve result code %r' % (what, tok))
+    return int(m.group(1))
+
+
+def _code_list(cond, what):
+    """`result == A || result == B …` -> [A, B, …]"""
+    parts = [p.strip() for p in cond.split('||')]
+    out = []
+    for p in parts:
+        m = re.fullmatch(r'result\s*==\s*(\w+)', p)
+        if not m:
+            raise E.ExtractError('%s: unknown test %r' % (what, p))
+        out.append(_lp_code(m.group(1), what))
+    return out
+
+
+def lp_solve_facts():
+    """LP::solve: [first ::solve] [if (result in RETRY) { …; result = ::solve(lp); … }] [if (result in ACCEPT) solution = …]"""
+    src = E.strip_comments(E.read(LPW))
+    body, ln = _body(src, r'std::optional<Vector>\s+LP::solve\s*\([^)]*\)\s*\{', LPW + ' LP::solve')
+    calls = [m.start() for m in re.finditer(r'::solve\s*\(\s*lp\s*\)', body)]
+    if len(calls) != 2:
+        raise E.ExtractError(LPW + ': LP::solve is expected to call ::solve(lp) twice (first attempt, guarded retry), found %d' % len(calls))
+    between = body[calls[0]:calls[1]]
+    m = re.search(r'if\s*\(([^{};]*)\)\s*\{', between)
+    if not m or re.search(r'\belse\b|\bwhile\b|\bfor\b', between):
+        raise E.ExtractError(LPW + ': LP::solve: the retry is not a single `if (result == …) {` block')
+    retry = _code_list(m.group(1), LPW + ' LP::solve retry test')
+    after = body[calls[1]:]
+    m2 = re.search(r'if\s*\(([^{};]*)\)\s*solution\s*=', after)
+    if not m2 or len(re.findall(r'solution\s*=', body)) != 1:
+        raise E.ExtractError(LPW + ': LP::solve: `if (result == …) solution = …` not found exactly once after the retry')
+    accept = _code_list(m2.group(1), LPW + ' LP::solve accept test')
+    if re.search(r'\bset_scaling\b|\bset_scalemode\b', body):
+        raise E.ExtractError(LPW + ': LP::solve changes the scaling between attempts (lp_solve then rescales the scaled model)')
+    return retry, accept, ln
 
 
 def gen_c15facts():
@@ -110,6 +158,9 @@ def gen_c15facts():
     m1 = E.find1(r'for\s*\(\s*const\s+auto\s*&\s*rule\s*:\s*factor->getData\(\)\s*\)\s*if\s*\(\s*jvPartialIndex\s*==\s*rule\.first\s*\)\s*global\.crossSum\(rule\.second\)', src, 'GVE non-merge lookup loop')
     E.find1(r'oldRules\.emplace_back\(\s*jvID\s*,', src, 'GVE non-merge append')
     rows.append(('gveAppendsAndSumsAllMatches', 'Bool', 'true', GVE, E.lineno(src, m1.start()), 'without mergeFactors: new rules are appended, every rule with the wanted index is cross-summed'))
+    retry, accept, ln = lp_solve_facts()
+    rows.append(('lpRetryCodes', 'List Int', '[' + ', '.join(map(str, retry)) + ']', LPW, ln, 'lp_solve result codes after which LP::solve calls ::solve a second time (first-index pricing)'))
+    rows.append(('lpAcceptCodes', 'List Int', '[' + ', '.join(map(str, accept)) + ']', LPW, ln, 'lp_solve result codes with which LP::solve hands the point back'))
     out = ['/- GENERATED by tools/extract_c15.py from the library source — do not edit. -/', 'namespace AITB.Gen', '']
     for nm, ty, val, rel, ln, doc in rows:
         out.append(f'/-- {doc} ({rel}:{ln}) -/')
